@@ -83,6 +83,7 @@ def _ns(lp, locs):
     # relate the end of ONE iteration to its start (before the first havoc it is the function's pre-state)
     d["at_head"] = lambda o: old_view(o, getattr(lp, "head_state", None) or pre)
     d["head_state"] = getattr(lp, "head_state", None) or pre
+    d["head"] = _NS(getattr(lp, "head_locals", None) or {})      # the locals as they were at this loop's head
     return _NS(d)
 
 
@@ -135,6 +136,10 @@ def loop_begin(key, locs):
 def for_begin(key, it, locs):
     spec = LOOP_SPECS[tuple(key)]
     lp = _Loop(tuple(key), spec)
+    if type(it).__name__ == "_SymEnumerate":
+        # `for i, x in enumerate(seq)` (rt.enumerate_): cut like a loop over `seq`; the target receives (start + L.i, seq[L.i])
+        lp.enum_start = it.start
+        it = it.seq
     if isinstance(it, SymList) and getattr(spec, "as_set", False) and getattr(it, "_from_set", None) is not None:
         # opt-in (`loop(...).as_set = True`): `for k in sorted(some_set)` enumerated as the set itself, in
         # ARBITRARY order - an over-approximation of the sorted order, for invariants that do not need the order
@@ -379,6 +384,7 @@ def loop_havoc(lp, names, locs):
         c.assume(z3.IsSubset(lp.visited, lp.dom))
     lp.pre_arrays = dict(c.heap.st.arrays)
     lp.head_state = c.heap.snapshot()       # `L.at_head(obj)`: the (arbitrary) state this iteration starts in
+    lp.head_locals = {k: v for k, v in newlocs.items() if v is not UNBOUND and not k.startswith("_pyvc_")}   # `L.head.x`
     _assume_inv(lp, {k: v for k, v in newlocs.items() if v is not UNBOUND})
     if spec.decreases is not None:
         lp.dec0 = spec.decreases(_ns(lp, {k: v for k, v in newlocs.items() if v is not UNBOUND}))
@@ -429,6 +435,8 @@ def for_next(lp):
         k = lp.kty.wrap(kt)
     else:
         k = lp.seq._elem.wrap(lp.seq.term[_t(lp.i)])
+        if getattr(lp, "enum_start", None) is not None:
+            return (lp.enum_start + lp.i, k)
         if lp.view in (None, "k") or lp.map is None:
             return k
     if lp.view == "k":
